@@ -289,7 +289,66 @@ static void execute(const Plan& p) {
     }
 }
 
+// Block-boundary cases: many objects of one type (the 8000-entities-per-block limit) and string- or tag-heavy blocks (the 32 MiB
+// blob limit). Built from few choices; the content is derived from a counter so that the case stays cheap to describe and shrink.
+static void prop_block_boundary(vp::Src& s) {
+    Plan p;
+    p.o = gen_opts(s);
+    p.o.fmt = F_PBF;
+    p.o.filecomp = 0;
+    p.o.handover = 1 + static_cast<int>(s.draw(2));
+    p.hm.generator = "g";
+    for (int i = 0; i < 8; ++i) p.chunk_sizes.push_back(500 + s.draw(3000));
+    const int shape = static_cast<int>(s.weighted({3, 3, 2}));
+    const int type = shape == 2 ? model::NODE : static_cast<int>(s.draw(3));
+    size_t n, ntags, len;
+    if (shape == 0) {  // entity count boundary
+        static const size_t counts[] = {7999, 8000, 8001, 15999, 16000, 16001};
+        n = counts[s.draw(6)];
+        ntags = s.draw(2);
+        len = 3;
+    } else if (shape == 1) {  // long unique strings: 8 .. 45 MB of string data
+        len = 600 + s.draw(425);
+        ntags = 1 + s.draw(6);
+        size_t total = (8 + s.draw(38)) * 1024 * 1024;
+        n = std::min<size_t>(9000, total / (ntags * len) + 1);
+    } else {  // nodes with very many short tags (dense node tag arrays)
+        n = 2000 + s.draw(6500);
+        ntags = 100 + s.draw(600);
+        len = 2;
+    }
+    uint64_t counter = s.draw(1000);
+    for (size_t i = 0; i < n; ++i) {
+        Obj x;
+        x.type = type;
+        x.id = static_cast<int64_t>(i + 1);
+        x.version = 1;
+        x.ts = 1000;
+        x.cs = 1;
+        x.uid = 1;
+        x.user = "u";
+        if (type == model::NODE) x.loc = model::Loc{static_cast<int32_t>(i), 7};
+        if (type == model::WAY) x.refs.push_back(model::NodeRef{static_cast<int64_t>(i), model::Loc{}});
+        if (type == model::RELATION) x.members.push_back(model::Member{0, static_cast<int64_t>(i), "r", {}});
+        for (size_t t = 0; t < ntags; ++t) {
+            std::string v = std::to_string(shape == 2 ? (counter++ % 50) : counter++);
+            if (v.size() < len && shape == 1) v.resize(len, 'x');
+            x.tags.push_back(model::Tag{"k" + std::to_string(t % 100), v});
+        }
+        p.data.push_back(std::move(x));
+    }
+    if (vp::want_desc()) vp::describe("block boundary: " + std::to_string(n) + " objects of type " + std::to_string(type) + " with " + std::to_string(ntags) + " tags of " + std::to_string(len) + " bytes | " + show_opts(p.o));
+    execute(p);
+    vp::count("block_boundary_cases");
+    vp::count(shape == 0 ? "block_boundary_entity_count" : shape == 1 ? "block_boundary_string_bytes" : "block_boundary_dense_tags");
+    vp::nontrivial(vp::hash_str(show_opts(p.o)) ^ (n * 1000003 + ntags * 101 + len));
+}
+
 static void prop(vp::Src& s) {
+    if (s.chance(1, vp::opts().tier == "thorough" ? 150 : 250)) {
+        prop_block_boundary(s);
+        return;
+    }
     Plan p;
     p.o = gen_opts(s);
     const Opts& o = p.o;
@@ -372,6 +431,34 @@ VP_BUILTIN(F01_pbf_header_bbox) {
             p.data.push_back(simple_node(1));
             execute(p);
         }
+}
+
+VP_BUILTIN(F02_pbf_block_larger_than_32_MiB) {
+    for (int dense = 0; dense < 2; ++dense) {
+        Plan p;
+        p.o.fmt = F_PBF;
+        p.o.handover = 2;
+        p.o.pbf_compression = 0;
+        p.hm.generator = "g";
+        for (int i = 0; i < 8; ++i) p.chunk_sizes.push_back(1000);
+        uint64_t counter = 0;
+        const size_t n = dense ? 8000 : 7000, ntags = dense ? 1500 : 5;
+        for (size_t i = 0; i < n; ++i) {
+            Obj x;
+            x.type = dense ? model::NODE : model::WAY;
+            x.id = static_cast<int64_t>(i + 1);
+            x.version = 1;
+            x.user = "u";
+            if (dense) x.loc = model::Loc{1, 2};
+            for (size_t t = 0; t < ntags; ++t) {
+                std::string v = std::to_string(dense ? counter++ % 97 : counter++);
+                if (!dense) v.resize(1000, 'x');
+                x.tags.push_back(model::Tag{"k" + std::to_string(t % 50), v});
+            }
+            p.data.push_back(std::move(x));
+        }
+        execute(p);
+    }
 }
 
 VP_BUILTIN(F23_xml_id_int64_max) {
